@@ -857,6 +857,15 @@ class Engine:
 
     # ---------- calls ----------
     def resolve_name(s, func):
+        r = s._resolve_name(func)
+        if r == func and func.endswith('>'):
+            # a generic fn of the crate called with a turbofish: resolve without it (its one body serves every instantiation)
+            f2 = strip_tail(func)
+            if f2 != func:
+                r2 = s._resolve_name(f2)
+                if r2 in s.bodies or r2 in s.bodies.simple: return r2
+        return r
+    def _resolve_name(s, func):
         f = func
         if f in s.bodies: return f
         if f in s.alias: return s.alias[f]
